@@ -95,6 +95,17 @@ CHECKS = {
         note="band oracle for clause (c); bounded pools",
         ref="DESIGN.md section 6 C16",
     ),
+    "C13": dict(
+        engine="LiquidPaths",
+        technique="TLA+ model of name resolution (LiquidPaths.tla: OS walk + loader guards), Confined checked by TLC over all names; "
+                  "every name replayed against every loader kind / access path on a real directory tree",
+        text="TLC enumerates every template name of <=2 (thorough 3) segments over {plain, dotted, '.', '..', empty, directory, outside-file "
+             "names} x {relative, '/', absolute base path} for one and two search paths, with and without default extension, checks that what "
+             "is served lies below a search path, and exports the expected file or not-found; FileSystemLoader, CachingFileSystemLoader, "
+             "ChoiceLoader and PackageLoader are asked sync and async, from Python and through include/render/extends",
+        note="no symlinks; POSIX; the model's Confined is shown non-vacuous by refuting it with the parent-directory guard removed",
+        ref="DESIGN.md section 6 C13",
+    ),
     "C14": dict(
         engine="LiquidCache",
         technique="TLA+ model of the caching loaders (LiquidCache.tla) checked by TLC; every bounded history "
